@@ -150,6 +150,7 @@ def run(ctx):
     if tvh is None:
         ctx.violation("harness does not build against /repo", {"unchecked": "cargo build"}, concrete=False)
         return
+    regression_lines(ctx, tvh, ["c12"])
     strs, vals, exh = gen(ctx)
     strs = list(dict.fromkeys(strs))
     cases = [f"s {h(s)}" for s in strs] + vals
